@@ -694,6 +694,52 @@ def split_option_map(R, e):
     return X, sub(ce), D
 
 
+def resolve_tuple_merges(cx, body, e, depth=6):
+    """`let (flag, v) = match opt { Some(x) => (C, x), None => (0, d) }` reads in MIR as a tuple-typed local with two
+    definitions.  Where the facts at the two definitions are is(opt,Some) / is(opt,None) for one and the same `opt`,
+    component k of that local is rewritten into the scalar spelling of the same value:
+        (x, d)  ->  Option::unwrap_or(opt, d)          (C, 0) with C = 1 << s  ->  (is_some(opt) as u8) << s
+    Anything else is left alone (the caller then fails closed)."""
+    if not isinstance(e, tuple) or depth <= 0:
+        return e
+    if e and e[0] == "proj" and isinstance(e[1], tuple) and e[1][0] == "var" and e[2] and isinstance(e[2][0], str) and e[2][0].isdigit():
+        n, k = e[1][1], int(e[2][0])
+        defs = body.defs.get(n, [])
+        if len(defs) == 2 and all(kind == "assign" for _, kind, _ in defs):
+            fa = cx.fa(body)
+            vals = []
+            for loc, kind, node in defs:
+                de = body.rvalue_expr(node["rv"])
+                vals.append((loc, de, fa.at(loc) or []))
+            if all(de[0] == "agg" and de[1] == "tuple" and len(de[2]) > k for _, de, _ in vals):
+                for (la, da, fa_a), (lb, db, fa_b) in (vals, vals[::-1]):
+                    # which Option decides?  the one whose payload the Some-side tuple mentions
+                    X = None
+                    for comp in da[2]:
+                        if comp[0] == "proj" and len(comp[2]) >= 2 and tuple(comp[2][-2:]) == ("@Some", "0"):
+                            X = ("proj", comp[1], tuple(comp[2][:-2])) if len(comp[2]) > 2 else comp[1]
+                    if X is None:
+                        continue
+                    xs = show(X)
+                    if not (fa_a and all(("is(%s,Some)" % xs) in a for a in fa_a) and fa_b and all(("is(%s,None)" % xs) in a for a in fa_b)):
+                        continue
+                    ca, cb = da[2][k], db[2][k]
+                    rest = tuple(e[2][1:])
+                    out = None
+                    if show(ca) == xs + "@Some.0" and cb[0] == "const":
+                        out = ("call", "Option::unwrap_or", (X, cb))
+                    elif ca[0] == "const" and cb[0] == "const" and str(cb[1]) == "0":
+                        try:
+                            a_ = int(str(ca[1]))
+                        except ValueError:
+                            a_ = 0
+                        if a_ > 0 and a_ & (a_ - 1) == 0:
+                            out = ("bin", "Shl", ("cast", ca[2], ("call", "Option::is_some", (X,))), ("const", str(a_.bit_length() - 1), "i32", None))
+                    if out is not None:
+                        return ("proj", out, rest) if rest else out
+    return tuple(resolve_tuple_merges(cx, body, c, depth - 1) if isinstance(c, tuple) else c for c in e)
+
+
 def _subst_args(e, args):
     if isinstance(e, tuple):
         if len(e) == 2 and e[0] == "arg" and isinstance(e[1], int) and 1 <= e[1] <= len(args):
